@@ -124,6 +124,15 @@ pub fn check_c04(sc: &SyncSc, world: World, rep: &mut RunReport, salt: u64) -> O
         }
     }
     if faulted {
+        // a failing unlink of the local/pull delete pass: the run may report the failure — but a
+        // run that exits 0 claims its delete set was removed
+        let unlink_failed = out.trace.iter().any(|r| r.injected && r.kind == OpKind::Unlink && r.pid == me.pid);
+        if exit0 && unlink_failed {
+            if let Some(p) = plan.delete.iter().find(|p| dst1.contains_key(*p)) {
+                rep.fail("c04.delete_applied", "exit-0-although-a-delete-failed", format!("{dir_name}: removing {p:?} failed (injected errno), the file is still there, and the run exits 0"));
+                return None;
+            }
+        }
         if exit0 {
             rep.probe("exit0_after_injected_error", 1);
         } else {
